@@ -150,14 +150,27 @@ func (c *Ctx) logoutMethodTable() {
 	init := c.P.Func("(*ab/logout.Logout).Init")
 	name := FuncName(init)
 	want := map[string]string{"GET": "Get", "POST": "Post", "DELETE": "Delete"}
-	// the function value called with "/logout"
-	var reg ssa.CallInstruction
+	// the function value(s) called with "/logout": one call through a value
+	// selected by a switch, or one call per arm of the switch
+	var regs []ssa.CallInstruction
 	for _, call := range Calls(init) {
-		if p, isC := constArgStr(call, 0); isC && p == "/logout" && Callee(call) == "" {
-			reg = call
+		if p, isC := constArgStr(call, 0); isC && p == "/logout" && !call.Common().IsInvoke() {
+			// through a function value: a phi, or (per arm) a bound Router method
+			v := call.Common().Value
+			for {
+				ct, isCT := v.(*ssa.ChangeType)
+				if !isCT {
+					break
+				}
+				v = ct.X
+			}
+			_, isMC := v.(*ssa.MakeClosure)
+			if Callee(call) == "" || isMC {
+				regs = append(regs, call)
+			}
 		}
 	}
-	if reg == nil {
+	if len(regs) == 0 {
 		// direct calls Router.X("/logout", …)
 		n := 0
 		for _, call := range Calls(init) {
@@ -174,15 +187,38 @@ func (c *Ctx) logoutMethodTable() {
 		}
 		return
 	}
-	phi, ok := reg.Common().Value.(*ssa.Phi)
-	if !ok {
+	reg := regs[0]
+	type selected struct {
+		v     ssa.Value
+		facts []Fact
+	}
+	var sels []selected
+	for _, rc := range regs {
+		if phi, ok := rc.Common().Value.(*ssa.Phi); ok {
+			for i, e := range phi.Edges {
+				sels = append(sels, selected{e, FactsAtEdge(phi.Block().Preds[i], phi.Block())})
+			}
+			continue
+		}
+		sels = append(sels, selected{rc.Common().Value, FactsAtInstr(rc.(ssa.Instruction))})
+	}
+	if len(sels) < 2 {
 		r.Unknown("C10.method", name, "/logout", posf(c, reg), "registration function is not selected by a switch")
 		return
 	}
 	seen := map[string]bool{}
-	for i, e := range phi.Edges {
+	for _, se := range sels {
+		e := se.v
 		if IsNilConst(e) {
 			continue // the rejected-method path carries no registration function
+		}
+		for {
+			// a named function type for the registration function
+			ct, isCT := e.(*ssa.ChangeType)
+			if !isCT {
+				break
+			}
+			e = ct.X
 		}
 		mc, isMC := e.(*ssa.MakeClosure)
 		method := ""
@@ -193,7 +229,7 @@ func (c *Ctx) logoutMethodTable() {
 		}
 		// which constant selects this edge
 		sel := ""
-		for _, f := range FactsAtEdge(phi.Block().Preds[i], phi.Block()) {
+		for _, f := range se.facts {
 			rel := f.Rel()
 			if rel.Op == token.EQL {
 				if s, isC := ConstStr(rel.Y); isC && fieldLoadName(rel.X) == "LogoutMethod" {
@@ -224,13 +260,17 @@ func (c *Ctx) logoutMethodTable() {
 	}
 	r.Check(okDefault, "C10.method", name, "default", c.P.Pos(init.Pos()), "an unknown method is an Init error", "an unknown LogoutMethod is not rejected")
 	// handler is Logout wrapped by ErrorHandler.Wrap
-	h := Arg(reg, 1)
-	wc, _ := CallOf(h)
-	okH := false
-	if wc != nil && strings.HasSuffix(Callee(wc), "ErrorHandler).Wrap") {
-		if f, n := c.resolveFuncValue(Arg(wc, 0)); f != nil && n == "(*ab/logout.Logout).Logout" {
-			okH = true
+	okH := true
+	for _, rc := range regs {
+		h := Arg(rc, 1)
+		wc, _ := CallOf(h)
+		okOne := false
+		if wc != nil && strings.HasSuffix(Callee(wc), "ErrorHandler).Wrap") {
+			if f, n := c.resolveFuncValue(Arg(wc, 0)); f != nil && n == "(*ab/logout.Logout).Logout" {
+				okOne = true
+			}
 		}
+		okH = okH && okOne
 	}
 	r.Check(okH, "C10.method", name, "handler", posf(c, reg), "/logout -> ErrorHandler.Wrap(Logout)", "the /logout route is not served by the Logout handler")
 }
@@ -296,10 +336,7 @@ func (c *Ctx) logoutClear(rule, ruleErr string, cookieOnly bool) bool {
 		assume[before.Handled] = false
 	}
 	for _, n := range needs {
-		q := PathQuery{From: before.Call.(ssa.Instruction), Assume: assume, Cut: n.pred, Goal: func(i ssa.Instruction) bool {
-			ret, ok := i.(*ssa.Return)
-			return ok && !c.isErrorExit(ret)
-		}, Prune: func(from, to *ssa.BasicBlock) bool {
+		q := PathQuery{From: before.Call.(ssa.Instruction), Assume: assume, Cut: n.pred, GoalP: c.nonErrorReturn, Prune: func(from, to *ssa.BasicBlock) bool {
 			// the error edge of the fire leaves with an error
 			if f, ok := EdgeFact(from, to); ok && before.Err != nil && f.SaysNotNil(before.Err) {
 				return true
@@ -351,7 +388,7 @@ func (c *Ctx) routerDispatch(rule string) {
 				// with the constants compared on it
 				fields := map[string]bool{}
 				for _, v := range feasibleOperands(Arg(call, 0), 0) {
-					if n := fieldLoadName(v); n != "" {
+					if n, dyn := muxSlot(v); n != "" && dyn == nil {
 						fields[n] = true
 					} else if !IsNilConst(v) {
 						fields["?"] = true
@@ -382,21 +419,67 @@ func (c *Ctx) routerDispatch(rule string) {
 			if !ok {
 				continue
 			}
-			fld := fieldLoadName(ld)
+			methodIs := func(meth string) func(f Fact) bool {
+				return func(f Fact) bool {
+					rel := f.Rel()
+					if rel.Op != token.EQL || fieldLoadName(rel.X) != "Method" {
+						return false
+					}
+					s, isC := ConstStr(rel.Y)
+					return isC && s == meth
+				}
+			}
+			bad := func(fld, meth string) string {
+				return "the table filled by Router." + strings.Title(strings.ToLower(meth)) + " is served without req.Method == \"" + meth + "\" being established: routes registered for " + meth + " (logout among them when LogoutMethod is " + meth + ") answer other methods too"
+			}
+			fld, dyn := muxSlot(ld)
+			if dyn != nil {
+				// an element of an array of tables selected by a computed index: every
+				// index the selection can produce must have been chosen under its method
+				phi, isPhi := dyn.(*ssa.Phi)
+				if !isPhi {
+					continue
+				}
+				here := FactsAtInstr(ld)
+				for i, e := range phi.Edges {
+					k, isC := ConstInt(e)
+					if !isC {
+						continue
+					}
+					// an edge that a sibling phi (the comma-ok flag) rules out at the load
+					feasible := true
+					for _, sib := range phi.Block().Instrs {
+						sp, isP := sib.(*ssa.Phi)
+						if !isP || sp == phi || i >= len(sp.Edges) {
+							continue
+						}
+						if bv, isB := ConstBool(sp.Edges[i]); isB {
+							if HasFact(here, func(f Fact) bool { return f.SaysBool(sp, !bv) }) {
+								feasible = false
+							}
+						}
+					}
+					if !feasible {
+						continue
+					}
+					slot := sprintf("%s[%d]", fld, k)
+					meth, isTable := table[slot]
+					if !isTable {
+						continue
+					}
+					n++
+					okSel := HasFact(FactsAtEdge(phi.Block().Preds[i], phi.Block()), methodIs(meth))
+					r.Check(okSel, rule, name, "table "+slot+" only for "+meth, posf(c, ld), "selected under req.Method == "+meth, bad(slot, meth))
+				}
+				continue
+			}
 			meth, isTable := table[fld]
 			if !isTable {
 				continue
 			}
 			n++
-			okSel := HasFact(FactsAtInstr(ld), func(f Fact) bool {
-				rel := f.Rel()
-				if rel.Op != token.EQL || fieldLoadName(rel.X) != "Method" {
-					return false
-				}
-				s, isC := ConstStr(rel.Y)
-				return isC && s == meth
-			})
-			r.Check(okSel, rule, name, "table "+fld+" only for "+meth, posf(c, ld), "selected under req.Method == "+meth, "the table filled by Router."+strings.Title(strings.ToLower(meth))+" is served without req.Method == \""+meth+"\" being established: routes registered for "+meth+" (logout among them when LogoutMethod is "+meth+") answer other methods too")
+			okSel := HasFact(FactsAtInstr(ld), methodIs(meth))
+			r.Check(okSel, rule, name, "table "+fld+" only for "+meth, posf(c, ld), "selected under req.Method == "+meth, bad(fld, meth))
 		}
 	}
 	if n < len(table) {
@@ -472,6 +555,32 @@ func (c *Ctx) logoutHooks(rule string) {
 	if n == 0 {
 		r.Info(rule, "-", "EventLogout handlers", "-", "the library registers no handler on EventLogout (reference: 0); integrator handlers are not decided")
 	}
+}
+
+// muxSlot names the table a value was loaded from: a field ("gets") or a
+// constant element of an array field ("muxes[0]"); for an element at a
+// computed index it returns the field and the index value.
+func muxSlot(v ssa.Value) (string, ssa.Value) {
+	if n := fieldLoadName(v); n != "" {
+		return n, nil
+	}
+	ld, ok := v.(*ssa.UnOp)
+	if !ok {
+		return "", nil
+	}
+	ia, ok := ld.X.(*ssa.IndexAddr)
+	if !ok {
+		return "", nil
+	}
+	fa, ok := ia.X.(*ssa.FieldAddr)
+	if !ok {
+		return "", nil
+	}
+	base := fieldName(fa)
+	if k, isC := ConstInt(ia.Index); isC {
+		return sprintf("%s[%d]", base, k), nil
+	}
+	return base, ia.Index
 }
 
 // feasibleOperands resolves a value through phis, dropping operands whose
